@@ -211,6 +211,19 @@ pub fn run(out: &mut Out, thorough: bool) {
 
     // ---- a second ciphersuite in the same process, AFTER all the CL1024 activity above ----------------------------------
     second_suite::<CL2048Sha256>(out, "CL2048Sha256", include_str!("../fixtures/cl2048_keypair.json"));
+    // which property each probe speaks for (a sweep for property P counts a contradiction only when P is listed)
+    for p in out.probes.iter_mut() {
+        let id = p["id"].as_str().unwrap_or("").to_string();
+        let prop = if id.contains("responses-mask") { "C19" }
+            else if id.contains("/spok/") { "C15" }
+            else if id.contains("/issue") { "C14" }
+            else if id.contains("/range/") { "C16" }
+            else if id.contains("/sig/") || id.contains("/boundary/") { "C13" }
+            else { "C13" };
+        if let Some(t) = p["tags"].as_array_mut() {
+            t.push(serde_json::Value::String(format!("prop:{}", prop)));
+        }
+    }
 }
 
 /// sign / present / issue with another ciphersuite (key from a fixture made once by the real KeyPair::generate), with the
